@@ -142,7 +142,7 @@ class LockStep:
         ((loss2 * self.scale) if self.scale else loss2).backward()
         return None, None
 
-    def train_iter(self, seed, sizes=None, reset_after=None, check=True, by=(), extra_fwd=0):
+    def train_iter(self, seed, sizes=None, reset_after=None, check=True, by=(), extra_fwd=0, fwd_only_at=None):
         c = self.case
         accum = c.get('accum', 1)
         sizes = sizes or [c.get('N', 2)] * accum
@@ -189,6 +189,17 @@ class LockStep:
             self.ref.observe([{nm: (recs[nm][0][0], recs[nm][1][0]) for nm in self.names}])
             if item in by:
                 self.bystander_micro(seed + item)
+            if fwd_only_at is not None and item == fwd_only_at % accum and not c.get('in_hook', True) and self.ref.is_factor_step():
+                # a train-mode forward pass without a backward pass inside the window (e.g. a no_grad pseudo-label pass), factors updated
+                # in step(): the layer has seen one more input batch than output gradients; each factor is the mean over what IT has seen
+                xe = kmodel.make_input(c['spec'], c.get('N', 2), seed * 31 + 555 + item, c.get('style', 'gauss'), self.pd)
+                import contextlib
+                amp = torch.autocast('cpu', dtype=self.autocast) if self.autocast is not None else contextlib.nullcontext()
+                with torch.no_grad(), amp:          # inside the same autocast region as every other forward pass of the run
+                    self.model(xe)
+                    self.twin(xe)
+                recs = self.rec.pop()
+                self.ref.observe([{nm: (recs[nm][0][0], None) for nm in self.names}])
         for m in (self.model, self.twin):
             for p in m.parameters():
                 if p.grad is not None:
